@@ -69,6 +69,23 @@ Theorem C09_forced : forall oci blob,
 Proof. exact forced. Qed.
 Print Assumptions C09_forced.
 
+(* the three regular expressions of the source (Generated.v) accept and reject
+   the pinned strings of C09_Spec.v *)
+Theorem C09_pinned_strings :
+  forallb scope_ok_b pinned_good_scopes = true
+  /\ forallb (fun s => negb (scope_ok_b s)) pinned_bad_scopes = true
+  /\ forallb is_valid_file_name pinned_good_names = true
+  /\ forallb (fun s => negb (is_valid_file_name s)) pinned_bad_names = true.
+Proof. exact pinned_strings. Qed.
+Print Assumptions C09_pinned_strings.
+
+(* whatever the regular expressions say, an accepted store name is a safe path
+   component and an accepted scope stays inside the alphabet of repository
+   paths (hand-written alphabets of C09_Model.v) *)
+Theorem C09_strings_safe : forall k d, validate k d = EOk -> strings_safe_b k d = true.
+Proof. exact accepted_strings_safe. Qed.
+Print Assumptions C09_strings_safe.
+
 (* the boolean checker used by the oracle on the implementation's observations
    is the declarative predicate *)
 Theorem C09_oracle_reflects : forall k d, wellformed_b k d = true <-> WellFormed k d.
